@@ -11,6 +11,7 @@ class VClock(object):
         self.now = float(start)
         self.sleeps = []
         self._installed = []
+        self.on_advance = None
 
     # the part of the `time` API pexpect uses
     def time(self):
@@ -22,10 +23,15 @@ class VClock(object):
     def sleep(self, dt):
         self.sleeps.append(dt)
         if dt and dt > 0:
-            self.now += dt
+            self.set(self.now + dt)
 
     def advance(self, dt):
-        self.now += dt
+        self.set(self.now + dt)
+
+    def set(self, t):
+        self.now = float(t)
+        if self.on_advance is not None:
+            self.on_advance()
 
     def __getattr__(self, name):          # anything else: the real thing
         return getattr(_real_time, name)
